@@ -78,11 +78,29 @@ def validate(ctx, trace_path, label):
         if l.get("a") == "Step":
             a = l["ev"]["a"]
             ctx.cov["steps_by_event"][a] = ctx.cov["steps_by_event"].get(a, 0) + 1
+    # three-exchange world: what only a third exchange makes visible
+    w = ctx.cov.setdefault("three_exchange_world", {"filter_cmds_naming_nonadjacent_exchanges": 0, "of_which_ask_for_the_last_exchange": 0,
+                                                    "steps_with_middle_link_failing_and_outer_links_delivering": 0, "steps_delivering_on_last_exchange": 0})
+    for l in keep:
+        if l.get("a") != "Step":
+            continue
+        ev, dl = l["ev"], l.get("dl", [[], [], []])
+        if len(dl) > 2 and dl[2]:
+            w["steps_delivering_on_last_exchange"] += 1
+        if len(dl) > 2 and dl[0] and dl[2] and l["env"]["link"][1] != "healthy" and any(
+                r.get("ex") == 1 for o in l["tick"]["outputs"] for k in ("errO", "errC") for r in o[k]):
+            w["steps_with_middle_link_failing_and_outer_links_delivering"] += 1
+        f = ev.get("filter", {})
+        if ev["a"] in FILTER_CMDS + ("ClosePositionsCF",) and f.get("k") == "Exchanges" and set(f.get("set", [])) == {0, 2}:
+            w["filter_cmds_naming_nonadjacent_exchanges"] += 1
+            if any(r.get("ex") == 2 for o in l["tick"]["outputs"] if o["k"] == "Commanded" for k in ("sentO", "sentC", "errO", "errC") for r in o[k]):
+                w["of_which_ask_for_the_last_exchange"] += 1
     ctx.cov["rejected_steps_owned_by_other_properties"] = ctx.cov.get("rejected_steps_owned_by_other_properties", 0) + foreign
     return n
 
 
 ASSUMPTIONS = [
+    "the engine world (harness/src/world2.rs) has three exchanges and six instruments: four on the first exchange (two sharing an underlying, one sharing only the base, one only the quote asset), one on the second and one on the third exchange (the same pair: three different underlyings); by-exchange filters include the non-adjacent pair {0, 2}",
     "a request names the exchange of its instrument or a non-existent exchange index; instrument indices exist (otherwise the engine panics by design)",
     "the order of requests inside one batch and of entries in sent/errors is free (compared as sets; driver batches never repeat a request)",
     "audit outputs are compared on the fields the properties name (request keys, error class recoverable/unrecoverable), not on error strings",
@@ -98,11 +116,12 @@ def check(ctx, extra_random_steps=0):
                     ["MarketItem", "Disconnects", "AccountItem", "TradingState", "Commands", "Shutdown"])
     ctx.tlc_mc("MC_EngineCore", "MC_EngineCore.cfg" if ctx.quick else "MC_EngineCore_thorough.cfg", timeout=3000, coverage=False)
     if not ctx.quick:
-        # every event x environment of the alphabet, one step, from 640 engine states (mixed link health,
-        # trading enabled / disabled, orders in every kind, long / short / flat)
+        # every event x environment of the alphabet, one step, from 640 engine states (mixed link health of the
+        # first and the last exchange, trading enabled / disabled, orders in every kind, long / short / flat)
         ctx.tlc_mc("MC_EngineCore", "MC_EngineCore_rich.cfg", timeout=3000, coverage=False)
     if ctx.pid == "C19" and not ctx.quick:
-        # every filter (all subsets) x both commands from 1440 engine states, one step, exhaustive
+        # every filter (all subsets of the 3 exchanges - the non-adjacent {0, 2} in both orders -, of the 6 instruments
+        # and of the 5 underlyings: 106) x both commands x 2 link states from 2160 engine states, one step, exhaustive
         ctx.tlc_mc("MC_EngineCore", "MC_EngineCore_scope.cfg", timeout=3000, coverage=False)
     nb = 600 if ctx.quick else 8000
     p_b, scn_b = ctx.tlc_gen("Gen_EngineCore", "Gen_EngineCore.cfg", "behaviours.ndjson", simulate=(nb, 40), timeout=900)
